@@ -47,7 +47,10 @@ def gen(rng):
         p["op"] = rng.randrange(len(NONFWD))
         p["state"] = "pending"
     elif kind == "timeout":
-        p["t"] = rng.randint(1, 5)
+        p["t"] = rng.choice([0, 0.0, 1, 2, 3, 5])
+    elif kind == "nocancel":
+        # state of the input when it is wrapped: pending (finishes later), or already resolved / failed / cancelled by its owner
+        p["pre"] = rng.choice(["pending", "pending", "resolved", "failed", "cancelled"])
     return p
 
 
@@ -98,6 +101,19 @@ def execute(p, chooser):
             t0 = det.now()
             r = outcome(lambda: px + 1)
             obs["res"] = ("timeout", r, det.now() - t0)
+            return
+        if kind == "nocancel" and p.get("pre", "pending") != "pending":
+            with det.atomic():
+                if p["pre"] == "cancelled":
+                    f.cancel()
+                elif p["pre"] == "failed":
+                    f.set_exception(exc)
+                else:
+                    f.set_result(v)
+            nc = f_nocancel(f)
+            c = nc.cancel()
+            obs["res"] = ("nocancel-pre", p["pre"], c, nc is f, nc.cancelled(), f._state, nc._state,
+                          nc._exception if p["pre"] == "failed" else nc._result, v, exc)
             return
         if kind == "nocancel":
             nc = f_nocancel(f)
@@ -166,6 +182,16 @@ def monitor(r, obs):
         _, rr, dt = res
         if rr != ("e", "TimeoutError") or dt != p["t"]:
             out.append({"what": "pending proxy with timeout %s: %r after %s" % (p["t"], rr, dt), "detail": str(p), "pattern": "proxy:timeout"})
+    elif res[0] == "nocancel-pre":
+        _, pre, c, same, ncc, fst, ncst, val, v, exc = res
+        ok = c is False and not same and not ncc
+        if pre == "resolved":
+            ok = ok and ncst == "FINISHED" and (val is v or val == v)
+        elif pre == "failed":
+            ok = ok and ncst == "FINISHED" and val is exc
+        if not ok:
+            out.append({"what": "f_nocancel of an already %s future: cancel()=%r, same object=%r, cancelled()=%r, wrapper %s"
+                                % (pre, c, same, ncc, ncst), "detail": str(p), "pattern": "nocancel:shield-pre"})
     elif res[0] == "nocancel":
         _, c, fst, ncst, val, v, exc = res
         ok = c is False and fst == "FINISHED" and ncst == "FINISHED" and (val is exc if p["state"] == "failed" else (val is v or val == v))
